@@ -125,6 +125,32 @@ def run(chk):
             lq, ld = line_query(rng, wj, False, lf, spread=rng.choice([0.15, 0.3, 0.6]))
             if ld >= 0:
                 cs.p3(slot, lq, ld, [[1, 0, 0], [2, 0, 0], [2, 1, 0], [2, 2, 0], [2, 3, 0], [4, 0, 0]])
+    # (g) a plume painted over an area feature, every composition / temperature operation, compositions the plume does not list
+    from qgen import TOP
+    for wi in range(10 if chk.tier == "quick" else 120):
+        gg = Gen(rng)
+        base = gg.area_feature("below", False, kinds=("mantle layer", "continental plate"), centre=(0.0, 0.0), size=9e5)
+        base.pop("min depth", None)
+        base["max depth"] = 6e5
+        base["composition models"] = [{"model": "uniform", "compositions": [0, 1, 2, 3], "fractions": [round(rng.uniform(0.1, 1), 3) for _ in range(4)]}]
+        base["temperature models"] = [{"model": "uniform", "temperature": float(round(rng.uniform(500, 1500), 1))}]
+        pl = gg.plume("pl", False, centre=(0.0, 0.0))
+        listed = rng.sample(range(4), rng.randint(1, 2))
+        pl["composition models"] = [{"model": "uniform", "compositions": listed, "fractions": [round(rng.uniform(0, 1), 3) for _ in listed],
+                                     "operation": rng.choice(["replace", "replace defined only", "add", "subtract"])}]
+        pl["temperature models"] = [{"model": "uniform", "temperature": float(round(rng.uniform(100, 900), 1)), "operation": gg.op()}]
+        for k in ("grains models", "velocity models"):
+            pl.pop(k, None)
+            base.pop(k, None)
+        wj = {"version": "1.1", "features": [base, pl]}
+        slot = cs.add_world(wj)
+        ds = pl["cross section depths"]
+        for _k in range(10):
+            j = rng.randrange(len(ds))
+            a = pl["semi-major axis"][j] * 0.5
+            d = float(round(rng.uniform(pl.get("min depth", 0.0), min(pl.get("max depth", ds[-1]), ds[-1] + 5e4))))
+            cs.p3(slot, (pl["coordinates"][j][0] + rng.uniform(-a, a), pl["coordinates"][j][1] + rng.uniform(-a, a), TOP - d), d,
+                  [[1, 0, 0], [2, 0, 0], [2, 1, 0], [2, 2, 0], [2, 3, 0], [4, 0, 0]])
     impl, model = cs.run()
     chk.evaluations = len(impl)
     bad = chk.correspond(impl, model, cs, max_ulp=0)
